@@ -16,6 +16,6 @@ CONSTANTS
   HdrOrders = {"std", "from1st", "viaLast", "clenmid"}
   RportForms = {"none"}
   Kinds = {"resp"}
-  RespVias = {"own", "plain", "noport", "received", "rcv.rport", "rportonly", "rportempty", "tcp", "tls", "sctp", "deep3"}
+  RespVias = {"own", "plain", "noport", "received", "rcv.rport", "rportonly", "rportempty", "rpempty.noport", "tcp", "tls", "sctp", "deep3"}
   Statuses = {100, 183, 200, 302, 404, 503, 603}
 INVARIANTS Reach_RespRelay
